@@ -44,6 +44,46 @@ def usable_reactions() -> List[Tuple[str, str]]:
     return out
 
 
+_IMPLICIT = []
+
+
+def implicit_versions() -> List[Tuple[str, str]]:
+    """the explicit-hydrogen reactions once more with every hydrogen implicit, to be run in implicit-H mode (other
+    chemistry than the ecoli corpus); used by C03, whose statement quantifies over both hydrogen modes"""
+    if not _IMPLICIT:
+        for rid, s in usable_reactions():
+            if rid.startswith(("graph", "cur")):
+                t = all_implicit(s)
+                if t and er.is_balanced(t) and er.fully_mapped_bijective(t) and h_consistent(t):
+                    _IMPLICIT.append((f"gimp#{rid.replace('#', '_')}", t))
+    return _IMPLICIT
+
+
+def all_implicit(rsmi: str) -> Optional[str]:
+    """every hydrogen atom folded into its heavy neighbour's count; None when a hydrogen has no single heavy neighbour"""
+    ps = Chem.SmilesParserParams()
+    ps.removeHs = False
+    out = []
+    for side in rsmi.split(">>"):
+        m = Chem.MolFromSmiles(side, ps)
+        if m is None:
+            return None
+        m = Chem.RWMol(m)
+        rm_idx = []
+        for a in m.GetAtoms():
+            if a.GetSymbol() == "H":
+                nb = list(a.GetNeighbors())
+                if len(nb) != 1 or nb[0].GetSymbol() == "H" or a.GetFormalCharge() != 0:
+                    return None
+                nb[0].SetNumExplicitHs(nb[0].GetNumExplicitHs() + 1)
+                nb[0].SetNoImplicit(True)
+                rm_idx.append(a.GetIdx())
+        for i in sorted(rm_idx, reverse=True):
+            m.RemoveAtom(i)
+        out.append(Chem.MolToSmiles(m, canonical=False))
+    return ">>".join(out)
+
+
 def curated_all_explicit() -> List[Tuple[str, str]]:
     """the curated reactions with *every* hydrogen of a centre atom explicit (also the ones that stay)"""
     from mc.curated import CURATED
@@ -244,6 +284,11 @@ def judge_outputs(sr, substrate_canon: str, invert: bool, tpl_change: Optional[n
 # ----------------------------------------------------------------------------- sub-check generators
 def gen_rxn(tier, seed):
     for rid, s in usable_reactions():
+        yield [rid, s]
+
+
+def gen_rxn_both_modes(tier, seed):
+    for rid, s in usable_reactions() + implicit_versions():
         yield [rid, s]
 
 
@@ -821,8 +866,8 @@ def setup(tier, seed):
 def c03_subs(tier, seed):
     setup(tier, seed)
     return [
-        Sub("own_template", gen_rxn, lambda c: split_fails(check_c03_c04(c), "C03"), key=lambda c: c[0], rule="own-template applications"),
-        Sub("round_trip", gen_rxn, check_round_trip, key=lambda c: c[0], rule="template as reaction string (centre and full) on two copies of the reactants, then the opposite direction on each product mixture; also backwards first under another numbering"),
+        Sub("own_template", gen_rxn_both_modes, lambda c: split_fails(check_c03_c04(c), "C03"), key=lambda c: c[0], rule="own-template applications; explicit-hydrogen reactions also with every hydrogen implicit in implicit-H mode"),
+        Sub("round_trip", gen_rxn_both_modes, check_round_trip, key=lambda c: c[0], rule="template as reaction string (centre and full) on two copies of the reactants, then the opposite direction on each product mixture; also backwards first under another numbering"),
         Sub("foreign_template", gen_foreign, check_foreign, key=lambda c: f"{c[0]}->{c[2]}", rule="foreign-template applications"),
         Sub("wildcard_rules", gen_wildcard, check_wildcard, key=lambda c: f"{c[0]} @ {c[1]}", rule="4 wildcard rules x 12 substrates (group present / absent), substrate as SMILES and as graph under 5 node numberings"),
     ]
